@@ -111,7 +111,7 @@ func top(r *vf.Run) {
 		timeout time.Duration
 	}
 	var stages []st
-	nb := r.N(2, 8) // l1 batches
+	nb := r.N(4, 8) // l1 batches
 	for i := 0; i < nb; i++ {
 		stages = append(stages, st{"l1", false, []string{fmt.Sprint(i), fmt.Sprint(nb)}, 12 * time.Minute})
 	}
@@ -142,7 +142,12 @@ func top(r *vf.Run) {
 			args := append(append([]string{}, s.args...), jpath)
 			var ex vf.ChildExit
 			for attempt := 0; attempt < 6; attempt++ {
-				ex = r.RunChild(vf.ChildSpec{Stage: s.name, Args: args, Race: s.race, Timeout: s.timeout, Attribution: attribution, Exclude: exclude})
+				// Attribution nil: races are accounted below with a stricter rule than vf's
+				ex = r.RunChild(vf.ChildSpec{Stage: s.name, Args: args, Race: s.race, Timeout: s.timeout})
+				accountRaces(r, ex.Races)
+				if s.race && ex.ExitCode == 66 && ex.Partial {
+					ex.ExitCode = 0 // the race runtime's exit status when reports were written
+				}
 				r.Logf("stage %s%v attempt %d done in %v exit=%d signal=%q timedout=%v partial=%v races=%d", s.name, s.args, attempt, time.Since(t0).Round(time.Millisecond), ex.ExitCode, ex.Signal, ex.TimedOut, ex.Partial, len(ex.Races))
 				if ex.TimedOut || ex.ExitCode == 0 || !openJournalReadOnly(jpath) {
 					break
@@ -166,6 +171,46 @@ func top(r *vf.Run) {
 	r.Assume("compress/gzip, archive/tar, encoding/json, crypto/sha256 (std) and klauspost zstd locate and hash the served TOC independently of /repo/estargz (cmd/c01/toc.go)")
 	r.Assume("generator model internal/gen (self-describing content) is the ground truth of genuine bytes; chunk boundaries are taken from the genuine TOC only to delimit, never for content")
 	r.Assume("the hook gate only delays goroutines at verifhook points, so every realised order is an execution of the unmodified program")
+}
+
+// accountRaces: a report counts against C01 iff the INNERMOST stargz-snapshotter frame
+// of one of its two access stacks is a function of the attribution set, i.e. the racy
+// access itself happens in VerifiableReader.*, reader.verify*, layer.Verify / SkipVerify /
+// RootNode / Info (the state that carries the verification decision). Races that merely
+// have such a function further up the stack (e.g. the retN/retErr race of
+// layer.backgroundFetch, C13's subject, reached through VerifiableReader.Cache) are
+// recorded as unattributed.
+func accountRaces(r *vf.Run, reps []vf.RaceReport) {
+	for _, rep := range reps {
+		r.Count("race_reports_seen", 1)
+		a, b := rep.InnermostRepoFrames()
+		fr := []string{a, b}
+		sort.Strings(fr)
+		hit := false
+		for _, f := range fr {
+			ex := false
+			for _, e := range exclude {
+				if strings.Contains(f, e) {
+					ex = true
+				}
+			}
+			if ex || f == "" {
+				continue
+			}
+			for _, at := range attribution {
+				if strings.Contains(f, at) {
+					hit = true
+				}
+			}
+		}
+		if hit {
+			key := "race:" + fr[0] + "|" + fr[1]
+			r.Violate(key, "data race between "+fr[0]+" and "+fr[1]+" (innermost stargz-snapshotter frames of the two accesses)", map[string]any{"report": rep.Text})
+			r.Distinct("attributed_races", key)
+		} else {
+			r.Distinct("unattributed_races_by_repo_frame", fr[0]+"|"+fr[1])
+		}
+	}
 }
 
 func crashSite(tail string) string {
